@@ -259,7 +259,7 @@ META['C05'] = {
 }
 _c05_cfg = [(b, w, i) for b in (0, 1, 2, 3) for (w, i) in ((0, 0), (1, 1), (2, 2), (3, 3), (0, 4))]
 JOBS['C05'] = [
-    {'name': 'vi_keys2', 'harness': 'c05_vi.c', 'units': 'ALL', 'defs': {'NK': 2, 'BUF': 2, 'WIN': 0, 'INIT': 0},
+    {'name': 'vi_keys2', 'harness': 'c05_vi.c', 'units': 'ALL', 'defs': {'NK': 2, 'BUF': 2, 'WIN': 0, 'INIT': 0}, 'heavy': True,
      'expect_reach': ['end'], 'timeout': {'quick': 280, 'thorough': 1700}, 'max_steps': 40000000, 'validate': {'quick': 6, 'thorough': 12}},
     {'name': 'vi_keys1', 'harness': 'c05_vi.c', 'units': 'ALL', 'defs': {'NK': 1},
      'variants': [{'BUF': b, 'WIN': w, 'INIT': i} for (b, w, i) in _c05_cfg],
